@@ -80,7 +80,7 @@ def main(tier):
         cmd = cmds[0]
         for cmd in cmds:
             try:
-                p = subprocess.run(cmd, cwd=sb, stdout=subprocess.PIPE, stderr=subprocess.PIPE, text=True, timeout=60)
+                p = subprocess.run(cmd, cwd=sb, stdout=subprocess.PIPE, stderr=subprocess.PIPE, text=True, timeout=60, preexec_fn=limit_as)
                 if p.returncode != 0:
                     rc = p.returncode
             except subprocess.TimeoutExpired:
